@@ -162,7 +162,14 @@ class TermEval:
             a, b = self.ev(e.body), self.ev(e.orelse)
             return a if a == b else ("phi", c, a, b)
         if isinstance(e, (ast.List, ast.Tuple, ast.Set)):
-            return ("list",) + tuple(self.ev(x) for x in e.elts)
+            out = []
+            for x in e.elts:
+                v = self.ev(x)
+                if v[0] == "star" and v[1][0] == "list":
+                    out.extend(v[1][1:])  # (*[a, b], c) == (a, b, c)
+                else:
+                    out.append(v)
+            return ("list",) + tuple(out)
         if isinstance(e, ast.Dict):
             return ("dict", tuple((self.ev(k), self.ev(v)) for k, v in zip(e.keys, e.values) if k is not None))
         if isinstance(e, ast.JoinedStr):
@@ -182,6 +189,18 @@ class TermEval:
             return self.call(e)
         if isinstance(e, ast.Lambda):
             return ("unknown", "lambda")
+        if isinstance(e, (ast.GeneratorExp, ast.ListComp, ast.SetComp)) and len(e.generators) == 1 and not e.generators[0].is_async:
+            # ('comp', element term, iterated term, filter terms): the bound variable denotes ('elem', iterated), as in a for loop
+            g = e.generators[0]
+            it = self.ev(g.iter)
+            saved = dict(self.env)
+            try:
+                self.assign(g.target, ("elem", it))
+                elt = self.ev(e.elt)
+                ifs = tuple(self.ev(c) for c in g.ifs)
+            finally:
+                self.env = saved
+            return ("comp", elt, it, ifs)
         if isinstance(e, (ast.GeneratorExp, ast.ListComp, ast.SetComp, ast.DictComp)):
             return ("unknown", "comprehension@%d" % e.lineno)
         if isinstance(e, ast.Starred):
@@ -290,6 +309,15 @@ class TermEval:
                 self._post = None
         return True
 
+    def _piece(self, aug, it, loop):
+        """term of the right-hand side of an accumulating `w += E` inside `loop` (the loop variable denotes an element of `it`)"""
+        saved = dict(self.env)
+        try:
+            self.assign(loop.target, ("elem", it))
+            return self.ev(aug.value)
+        finally:
+            self.env = saved
+
     def assign(self, t, v):
         if isinstance(t, ast.Name):
             self.env[t.id] = v
@@ -336,6 +364,17 @@ class TermEval:
             return True
         if isinstance(st, ast.Expr):
             if isinstance(st.value, ast.Call):
+                c = st.value
+                # incremental hashing: `h = H(); h.update(a); h.update(b)` denotes the same digest object as `H(a + b)` (hashlib / hmac contract)
+                if isinstance(c.func, ast.Attribute) and c.func.attr == "update" and isinstance(c.func.value, ast.Name) and len(c.args) == 1 and not c.keywords:
+                    cur = self.env.get(c.func.value.id)
+                    if cur is not None and cur[0] == "call" and cur[1][0] == "g" and (cur[1][1].startswith("hashlib.") or cur[1][1] in ("hmac.new", "hmac.HMAC")) and not cur[3]:
+                        arg = self.ev(c.args[0])
+                        if cur[1][1].startswith("hashlib.") and cur[1][1] != "hashlib.new":
+                            data = cur[2][0] if cur[2] else None
+                            new = arg if data is None else mk_op("+", data, arg)
+                            self.env[c.func.value.id] = ("call", cur[1], (new,), ())
+                            return True
                 self.effects.append((tuple(conds), self.ev(st.value), st))
             return True
         if isinstance(st, (ast.Pass, ast.Import, ast.ImportFrom, ast.Global, ast.Nonlocal)):
@@ -379,10 +418,27 @@ class TermEval:
             written = _written(st)
             self.assign(st.target, ("elem", it))
             saved = dict(self.env)
+            # pure accumulation `w += E` (the only kind of write to w in the loop): afterwards w = w_before + repeat(E...)
+            adds = {}
+            other = set()
+            for x in ast.walk(ast.Module(body=st.body + st.orelse, type_ignores=[])):
+                if isinstance(x, ast.AugAssign) and isinstance(x.op, ast.Add) and isinstance(x.target, ast.Name):
+                    adds.setdefault(x.target.id, []).append(x)
+                elif isinstance(x, (ast.Assign, ast.AnnAssign, ast.AugAssign, ast.NamedExpr, ast.For, ast.With, ast.ExceptHandler)):
+                    tg = x.targets if isinstance(x, ast.Assign) else ([x.target] if isinstance(x, (ast.AnnAssign, ast.AugAssign, ast.NamedExpr, ast.For)) else [])
+                    for t_ in tg:
+                        for y in ast.walk(t_):
+                            if isinstance(y, ast.Name):
+                                other.add(y.id)
             self.block(st.body, conds + [(("loop", it), True)])
+            body_env = self.env
             self.env = saved
             for w in written:
-                self.env[w] = ("unknown", f"loop-carried {w}")
+                if w in adds and w not in other and w in saved and w not in (n.id for n in ast.walk(st.target) if isinstance(n, ast.Name)):
+                    pieces = tuple(TermEval._piece(self, a_, it, st) for a_ in adds[w])
+                    self.env[w] = mk_op("+", saved[w], ("repeat", it) + pieces)
+                else:
+                    self.env[w] = ("unknown", f"loop-carried {w}")
             return True
         if isinstance(st, ast.While):
             written = _written(st)
